@@ -227,12 +227,15 @@ impl TcpNameserver {
         }
     }
 
-    async fn send_tcp_query(&mut self, msg: TcpNameserverMessage) -> Result<(), Error> {
-        assert!(
-            self.qid2reply
-                .insert(msg.out_query.qid, msg.out_reply)
-                .is_none()
-        ); // TODO: Collisions!
+    async fn send_tcp_query(&mut self, mut msg: TcpNameserverMessage) -> Result<(), Error> {
+        /* All queries to this nameserver share one connection, so the id is what tells the
+         * replies apart: if another outstanding query already uses this one, pick another.
+         */
+        while self.qid2reply.contains_key(&msg.out_query.qid) {
+            use rand::TryRng as _;
+            msg.out_query.qid = rand::rngs::SysRng.try_next_u32().unwrap() as u16;
+        }
+        self.qid2reply.insert(msg.out_query.qid, msg.out_reply);
         if let Some(ref mut tcp_sock) = self.tcp {
             use tokio::io::AsyncWriteExt as _;
             let bytes = msg.out_query.serialise();
